@@ -283,6 +283,8 @@ func (k Keeper) InitateGaugesForDuration(ctx sdk.Context, triggerDuration time.D
 			receivedAmount, err := k.liquidityKeeper.TransferFundsForSwapFeeDistribution(ctx, gauge.AppId, poolID)
 			if err != nil {
 				logger.Info(fmt.Sprintf("error occurred while swap fee fund transfer, err : %s", err))
+				// the fees distributed above have left the module account: keep the gauge's books in step with it
+				k.SetGauge(ctx, gauge)
 				continue
 			}
 			// in case of swap fee distribution denom change in params
